@@ -9,7 +9,7 @@ cd $WT && git checkout -q -- . && git clean -fdq -e out
 P=$WT/out/$M/patch.diff
 git apply --check $P || { echo "$ID: patch does not apply"; exit 1; }
 git apply $P
-SUITE=$(go test -vet=off -count=1 ./... 2>&1 | grep -v "^ok\|no test files" | head -5)
+SUITE=$(go test -vet=off -count=1 $(go list ./... | grep -v /out/) 2>&1 | grep -v "^ok\|no test files" | head -5)
 cp $WT/out/$M/demo_test.go $WT/$PKG/zz_seed_demo_test.go
 DEMO_WITH=$(go test -vet=off -count=1 ./$PKG/ 2>&1 | grep -c "^--- FAIL\|^FAIL\|panic:")
 git checkout -q -- .
